@@ -31,7 +31,7 @@ func init() {
 		Level: "model_checking",
 		// generous internal deadline: the run takes 1-2 minutes on an idle machine and several times that next to other jobs
 		QuickBudget: 900,
-		Rule: "all histories of <=1 (thorough <=2) earlier programs followed by a program under test over an alphabet of 72 programs (incl. source files loaded by relative path - a module that raises, one that does not parse, a good one - and regular expressions whose texts share one symbol key) (incl. pairs that raise the same run-time error from different source positions, and programs that invite!/import the embedded and Go standard modules after defining variables) (define a variable, read it, shadow a built-in name, use a built-in, raise `_` on different lines, touch Either's abstract props, raise at depth 2, syntax error, intern new symbols via evalEnv, print, read stdin, iterate, user error, error inside native code, inspect built-in prototypes), " +
+		Rule: "all histories of <=1 (thorough <=2) earlier programs followed by a program under test over an alphabet of 79 programs (incl. source files loaded by relative path - a module that raises, one that does not parse, a good one - and regular expressions whose texts share one symbol key) (incl. pairs that raise the same run-time error from different source positions, and programs that invite!/import the embedded and Go standard modules after defining variables) (define a variable, read it, shadow a built-in name, use a built-in, raise `_` on different lines, touch Either's abstract props, raise at depth 2, syntax error, intern new symbols via evalEnv, print, read stdin, iterate, user error, error inside native code, inspect built-in prototypes), " +
 			"each history in a new process, under 2 reuse drivers (playground: one const env, one enclosed scope per program - the call sequence of web/wasm/executor.go; `pangaea test`: runscript.RunTest over a generated directory); " +
 			"oracle: (stdout, value, error message, stack trace) of the program under test equals its observation alone in a new process; states = histories, transitions = program evaluations; " +
 			"non-trivial = every history of length >=1; distinct = distinct (driver, history, program); round 8: The alphabet (68 programs) also has operations that fail part-way (caught) next to the same operations done plainly, and many failed deep calls next to a 9900-deep recursion.",
@@ -139,6 +139,15 @@ var alphabet = []prog{
 	// small ints around powers of two, negative first / positive first
 	{Name: "negative-powers-of-two", Src: "[-64 * 8, -512 + 0, 0 - 1024, -2 ** 9, -256 * 2, -127 - 1, -255 - 1, 0 - 64]"},
 	{Name: "positive-powers-of-two", Src: "[2 ** 9, 1024 // 2, 256 + 256, 512 > 0, 2 ** 10, 64 * 2, 127 + 1, 255 + 1, [64, 128, 256, 512].sum, 8 * 8]"},
+	// two source files with the same bytes under different names, each raising when its function is called
+	{Name: "file-a-of-two-identical-raises", Src: "import(\"@MODS@/util_a\").check(1)", Fails: true},
+	{Name: "file-b-of-two-identical-raises", Src: "import(\"@MODS@/util_b\").check(2)", Fails: true},
+	{Name: "file-b-of-two-identical-passes", Src: "u := import(\"@MODS@/util_b\")\n[u.check(50), nil.try.{|v| u.check(3)}.err.msg]"},
+	{Name: "eval-same-text-as-a-file", Src: "f := \"check := {|x| raise ValueErr.new(\\\"too small: \\\" + x.S) if x < 10; x}\\n\".evalEnv\nf.check(4)", Fails: true},
+	// abstract properties called on the abstract prototypes themselves; a program's own abstract method
+	{Name: "abstract-props-of-Either-called", Src: "[nil.try.{|u| Either.val}.err.msg, nil.try.{|u| Either.fmap {|x| x}}.err.msg, nil.try.{|u| Either.A}.err.msg, nil.try.{|u| Either.or(1)}.err.msg, nil.try.{|u| Either.err}.err.msg]"},
+	{Name: "own-abstract-method-caught", Src: "shape := {area: m{_}, name: m{\"shape\"}}\n[nil.try.{|u| shape.area}.err.msg, nil.try.{|u| _}.err.msg, shape.name]"},
+	{Name: "own-abstract-method-uncaught", Src: "shape := {area: m{_}}\nshape.area", Fails: true},
 	{Name: "bear-patch-builtins", Src: "c := Int.bear({extra: 1})\nd := {a: 1}.patch(b: 2)\n[c['extra], Int['extra], d, Obj['b]]"},
 }
 
@@ -168,6 +177,9 @@ func writeMods(d string) {
 	os.WriteFile(filepath.Join(d, "broken.pangaea"), []byte("limit := 10\nraise ValueErr.new(\"broken module: limit is too small\") if limit < 100\nanswer := 42\n"), 0o644)
 	os.WriteFile(filepath.Join(d, "good.pangaea"), []byte("answer := 42\ntwice := {|x| x * 2}\n"), 0o644)
 	os.WriteFile(filepath.Join(d, "badsyntax.pangaea"), []byte("answer := (42\n"), 0o644)
+	for _, n := range []string{"util_a", "util_b"} {
+		os.WriteFile(filepath.Join(d, n+".pangaea"), []byte("check := {|x| raise ValueErr.new(\"too small: \" + x.S) if x < 10; x}\n"), 0o644)
+	}
 }
 
 func helper(args []string) int {
